@@ -1283,11 +1283,86 @@ func mpExhaustive(tier string) []string {
 	return ops
 }
 
+// mpSynthFamily is the deterministic "synthetic oneof collision" family: a proto3 message with an
+// `optional` field F and siblings named like the candidates of the naming loop (`_F`, `X_F`,
+// `XX_F`) of every kind that lives in the message's scope, singly and in pairs. Kinds: plain field,
+// map field, oneof, nested message, nested enum, VALUE of a nested enum (enum values are scoped
+// to the enclosing message), extension declared inside the message (of
+// google.protobuf.MessageOptions from the standard import descriptor.proto, since proto3 may only
+// extend options).
+// Not expressible: a map ENTRY type name (always `…Entry` without underscore, never a candidate)
+// and groups (not allowed in proto3, where synthetic oneofs exist).
+func mpSynthFamily() []string {
+	kinds := []string{"field", "map", "oneof", "msg", "enum", "value", "ext"}
+	var ops []string
+	build := func(f string, sibs [][2]string) string {
+		file := &mpFile{Path: "t.proto", Syntax: "3", Pkg: "p", Top: []mpRec{mpRec1("c", "0")}}
+		m := &mpBody{Name: "M", Elems: []mpRec{mpFldT("o", "int32", f, 1)}}
+		file.Msgs = append(file.Msgs, m)
+		w := &mpWS{Files: []*mpFile{file}}
+		needGP := false
+		for i, sb := range sibs {
+			name, kind := sb[0], sb[1]
+			tag := strconv.Itoa(2 + i)
+			switch kind {
+			case "field":
+				m.Elems = append(m.Elems, mpFldT("-", "int32", name, 2+i))
+			case "map":
+				m.Elems = append(m.Elems, mpRec1("m", "string", "int32", name, tag))
+			case "oneof":
+				m.Elems = append(m.Elems, mpRec1("o", name), mpRec1("f", "o", "-", "int32", "m"+tag, tag, "-", "-", "-"))
+			case "msg":
+				file.Msgs = append(file.Msgs, &mpBody{Name: name})
+				m.Elems = append(m.Elems, mpRec1("c", strconv.Itoa(len(file.Msgs)-1)))
+			case "enum":
+				m.Elems = append(m.Elems, mpNewEnum(file, name, mpRec1("v", "V"+tag, "0")))
+			case "value":
+				m.Elems = append(m.Elems, mpNewEnum(file, "E"+tag, mpRec1("v", name, "0")))
+			case "ext":
+				needGP = true
+				m.Elems = append(m.Elems, mpRec1("x", ".google.protobuf.MessageOptions"),
+					mpRec1("f", "x", "-", "int32", name, strconv.Itoa(1000+i), "-", "-", "-"))
+			}
+		}
+		if needGP {
+			file.Imports = append(file.Imports, mpRec1("I", "google/protobuf/descriptor.proto", "n"))
+		}
+		note := "synth:" + f
+		for _, sb := range sibs {
+			note += ":" + sb[1] + "=" + sb[0]
+		}
+		w.Note = note
+		return w.op()
+	}
+	for _, f := range []string{"x", "_x", "X", "a_b"} {
+		base := f
+		if !strings.HasPrefix(base, "_") {
+			base = "_" + base
+		}
+		cands := []string{base, "X" + base, "XX" + base}
+		ops = append(ops, build(f, nil))
+		for _, k := range kinds {
+			for _, c := range cands {
+				ops = append(ops, build(f, [][2]string{{c, k}}))
+			}
+		}
+		for _, k1 := range kinds {
+			for _, k2 := range kinds {
+				ops = append(ops, build(f, [][2]string{{cands[0], k1}, {cands[1], k2}}))
+			}
+		}
+	}
+	return ops
+}
+
 func mpGen(r *Rand, tier string, dual bool) [][]string {
 	var cases [][]string
 	add := func(op string) { cases = append(cases, []string{op}) }
 	anchors, _ := mpAnchorOps()
 	for _, op := range anchors {
+		add(op)
+	}
+	for _, op := range mpSynthFamily() {
 		add(op)
 	}
 	if !dual {
